@@ -466,8 +466,35 @@ let c20 (payload : string) : string =
     String.trim (Buffer.contents buf) ^ " | classes=" ^ String.concat "," sizes
   | _ -> c04 payload
 
+(* ---------------- C19: what the HTTP front ends build from the headers ---------------- *)
+let show_greq (q : greq) : string =
+  let kv = List.map (fun (k, v) -> (raw_of_bytes k, raw_of_bytes v)) q.g_meta in
+  let kv = List.sort (fun (a, _) (b, _) -> compare a b) kv in
+  let b x = if x then 1 else 0 in
+  Printf.sprintf "seq=%s hb=%d ow=%d ser=%d comp=%d meta=%s path=%s meth=%s body=%s"
+    (show_u64 q.g_seq) (b q.g_hb) (b q.g_oneway) (int_of_n q.g_ser) (int_of_n q.g_comp)
+    (String.concat "," (List.map (fun (k, v) -> hex_of_raw k ^ ":" ^ hex_of_raw v) kv))
+    (hex_of_raw (raw_of_bytes q.g_path)) (hex_of_raw (raw_of_bytes q.g_meth)) (hex_of_raw (raw_of_bytes q.g_payload))
+
+let front (payload : string) : string =
+  let hb = bytes_of_hex in
+  match split_on ' ' payload with
+  | "conv" :: [id; fhb; fow; ser; comp; meta; auth; path; meth; body] ->
+    let h = { h_id = hb id; h_hb = hb fhb; h_oneway = hb fow; h_ser = hb ser; h_comp = hb comp; h_meta = hb meta;
+              h_auth = hb auth; h_path = hb path; h_meth = hb meth } in
+    (match http_to_req h (hb body) with None -> "err" | Some q -> show_greq q)
+  | "gw" :: [id; fhb; fow; ser; comp; meta; auth; path; meth; body; urlpath] ->
+    let h = { h_id = hb id; h_hb = hb fhb; h_oneway = hb fow; h_ser = hb ser; h_comp = hb comp; h_meta = hb meta;
+              h_auth = hb auth; h_path = hb path; h_meth = hb meth } in
+    (match gateway_front h (hb urlpath) (hb body) with None -> "malformed" | Some q -> show_greq q)
+  | "jr" :: [meth; meta; auth; params; hasid] ->
+    (match jsonrpc_front (hb meth) (hb meta) (hb auth) (hb params) (hasid = "1") with
+     | None -> "malformed" | Some q -> show_greq q)
+  | _ -> "bad"
+
 (* ---------------- C15 / C19: ingresses ---------------- *)
 let c15 (payload : string) : string =
+  if String.length payload > 3 && (String.sub payload 0 3 = "gw " || String.sub payload 0 3 = "jr " || String.sub payload 0 5 = "conv ") then front payload else
   (* ing <ingress> <cfg 4 bits> <token> <hb ow> <malformed> <target> <h> <C> <dec> *)
   match split_on ' ' payload with
   | ["ing"; ing; cfg; tok; flags; mal; target; h; c; dec] ->
